@@ -108,7 +108,10 @@ def dfxp_strategy(tier):
             enc = f'<span tts:fontWeight="bold" tts:color="red">{enc}</span>'
         elif tag == "nested":
             enc = f'<span tts:fontStyle="italic"><span tts:textDecoration="underline">{enc}</span></span>'
-        return {"text": text, "enc": enc, "wrapped": wrapped, "tag": tag}
+        comment = draw(st.integers(0, 7)) == 0
+        if comment:     # a comment displays nothing
+            enc = enc + draw(st.sampled_from(["<!-- note -->", "<!--x-->", "<!-- a & b < c -->"]))
+        return {"text": text, "enc": enc, "wrapped": wrapped, "tag": tag, "comment": comment}
 
     @st.composite
     def build(draw):
@@ -141,7 +144,7 @@ def _nontrivial(case):
     for c in case["cues"]:
         for l in c["lines"]:
             for r in l["runs"]:
-                if r.get("tag") or r.get("wrapped") or r["enc"] != r["text"] or "&" in r["text"]:
+                if r.get("tag") or r.get("wrapped") or r.get("comment") or r["enc"] != r["text"] or "&" in r["text"]:
                     return True
     return False
 
@@ -180,6 +183,8 @@ def _labels(case, rec):
                     rec.label(case["fmt"] + "-wrapped")
                 if r.get("tag"):
                     rec.label(case["fmt"] + "-tag")
+                if r.get("comment"):
+                    rec.label(case["fmt"] + "-comment")
                 if "&" in r["enc"]:
                     rec.label(case["fmt"] + "-entity")
 
@@ -225,7 +230,10 @@ def sami_strategy(tier):
             enc = f'<font color="red">{enc}</font>'
         elif tag == "nested":
             enc = f"<i><b>{enc}</b></i>"
-        return {"text": text, "enc": enc, "wrapped": wrapped, "tag": tag}
+        comment = draw(st.integers(0, 7)) == 0
+        if comment:
+            enc = enc + draw(st.sampled_from(["<!-- note -->", "<!--x-->", "<!-- a & b < c -->"]))
+        return {"text": text, "enc": enc, "wrapped": wrapped, "tag": tag, "comment": comment}
 
     @st.composite
     def build(draw):
